@@ -371,13 +371,17 @@ def build_stream(lines, tail=None):
     return bytes(data), {"len": len(data), "ends": ends, "wf": wf, "notif": notif, "mid": mid, "kinds": kinds}
 
 
-async def _settle(client, got, gotn):
+async def _settle(client, got, gotn, heard=None):
     """drain until nothing new arrives (the reader blocks on a full read stream)"""
     quiet = 0
     while quiet < 2:
         await idle(2)
         a = drain(client._incoming_recv)
-        b = drain(client.notifications)
+        if heard is not None:
+            b = heard[:]
+            del heard[:]
+        else:
+            b = drain(client.notifications)
         got.extend(a)
         gotn.extend(b)
         quiet = quiet + 1 if not a and not b else 0
@@ -389,7 +393,7 @@ def run_framing(cases):
 
     out = []
 
-    async def one(lines, tail, sizes):
+    async def one(lines, tail, sizes, listen=False):
         data, desc = build_stream(lines, tail)
         evs = []
         with seam() as procs:
@@ -397,18 +401,31 @@ def run_framing(cases):
             async with client:
                 proc = procs[0]
                 p = 0
-                for n in sizes:
-                    chunk = data[p:p + n]
-                    p += n
-                    proc.stdout.feed(chunk)
+                # in some runs an application task is parked on the notification stream while the
+                # lines arrive (instead of draining it afterwards)
+                heard = [] if listen else None
+
+                async def listener():
+                    while True:
+                        heard.append(await client.notifications.receive())
+
+                async with anyio.create_task_group() as ltg:
+                    if listen:
+                        ltg.start_soon(listener)
+                        await idle(1)
+                    for n in sizes:
+                        chunk = data[p:p + n]
+                        p += n
+                        proc.stdout.feed(chunk)
+                        got, gotn = [], []
+                        await _settle(client, got, gotn, heard)
+                        evs.append({"e": "Chunk", "n": n, "delivered": [msg_tag(m)[1] for m in got], "notified": [msg_tag(m)[1] for m in gotn],
+                                    "kinds": [msg_tag(m)[0] for m in got]})
+                    proc.stdout.eof()
                     got, gotn = [], []
-                    await _settle(client, got, gotn)
-                    evs.append({"e": "Chunk", "n": n, "delivered": [msg_tag(m)[1] for m in got], "notified": [msg_tag(m)[1] for m in gotn],
-                                "kinds": [msg_tag(m)[0] for m in got]})
-                proc.stdout.eof()
-                got, gotn = [], []
-                await _settle(client, got, gotn)
-                evs.append({"e": "Eof", "n": 0, "delivered": [msg_tag(m)[1] for m in got], "notified": [msg_tag(m)[1] for m in gotn]})
+                    await _settle(client, got, gotn, heard)
+                    evs.append({"e": "Eof", "n": 0, "delivered": [msg_tag(m)[1] for m in got], "notified": [msg_tag(m)[1] for m in gotn]})
+                    ltg.cancel_scope.cancel()
         rec = dict(desc)
         rec["ev"] = evs
         # only the mid positions that are cut positions matter to the specification
@@ -421,8 +438,8 @@ def run_framing(cases):
         return rec
 
     async def main():
-        for lines, tail, sizes in cases:
-            out.append(await one(lines, tail, sizes))
+        for k, (lines, tail, sizes) in enumerate(cases):
+            out.append(await one(lines, tail, sizes, listen=(k % 3 == 1)))
 
     vloop.run(main)
     return out
@@ -459,6 +476,15 @@ def make_item(shape, n, text, rng):
         return JSONRPCError(jsonrpc="2.0", id="e%d" % n, error=e), {"jsonrpc": "2.0", "id": "e%d" % n, "error": e}
     if shape == "dict":
         d = {"jsonrpc": "2.0", "id": n, "method": "m/" + text, "params": payload}
+        if n % 3 == 1:
+            # JSON values the fast encoder refuses and the standard one writes: integers beyond 64
+            # bits, nesting deeper than 254 levels
+            deep = cur = []
+            for _ in range(300):
+                nxt = []
+                cur.append(nxt)
+                cur = nxt
+            d = {"jsonrpc": "2.0", "id": n, "method": "m/" + text, "params": dict(payload, huge=2**64 + n, neg=-(2**70), deep=deep)}
         return d, d
     if shape == "str":
         d = {"jsonrpc": "2.0", "id": n, "result": shown}
